@@ -628,3 +628,128 @@ def c12(prop, tier, replay):
                 "headers, spare bytes) exhaustively, and seeded random sequences of up to 3 operations; distinct = distinct file bytes; "
                 "non-trivial = at least one operation applied",
                 sum(1 for c in cases if len(c["ops"]) >= 1), {"distinct_files": distinct_files(cases)})
+
+
+@check("C18")
+def c18(prop, tier, replay):
+    t0 = time.time()
+    wd = workdir(prop + "-" + tier)
+    known = load_known()
+    if replay:
+        cases = [json.load(open(replay))]
+        res = validate_sharded("Trace_Read", cases, wd, "replay", 1, runner="read-run")
+        report_read(prop, tier, res, cases, [], t0, known, "model_checking", "replay", 2)
+        return
+    st, mcs = gen_mc("MC_Meta", "MC_Meta_q" if tier == "quick" else "MC_Meta_t", wd, tier, coverage=False)
+    cases = []
+    for i, c in enumerate(mcs):
+        info = {k: c[k] for k in ("title", "year", "poster", "summary", "unk", "shape", "order")}
+        cases.append({"id": "meta-%d" % i, "prop": "C18", "file": c["file"], "expect_ok": True, "meta": True,
+                      "calls": [{"op": "meta"}, {"op": "count", "t": 1}, {"op": "read", "t": 1, "k": 1}, {"op": "meta"}], "info": info})
+    res = validate_sharded("Trace_Read", cases, wd, "meta", 6 if tier == "quick" else 16, runner="read-run")
+    report_read(prop, tier, res, cases, [st], t0, known, "model_checking",
+                "movies with iTunes-style metadata: item subsets x encodings (text / 4-byte binary / malformed years, empty and 300-byte "
+                "payloads, multi-byte UTF-8) x unknown items x handler types x meta with/without version-flags word x item order x "
+                "missing ilst/meta/udta, rendered by the specification; distinct = distinct file bytes; non-trivial = at least one of the four items present",
+                sum(1 for c in cases if any(c["info"][k] != "absent" for k in ("title", "year", "poster", "summary"))),
+                {"distinct_files": distinct_files(cases), "exhaustive": True})
+
+
+# ----------------------------------------------------------------------------------------
+# C15: history independence of reads (schedules) + determinism of muxing / parsing
+
+def canned(name):
+    return list(open(os.path.join("/repo/tests/samples", name), "rb").read())
+
+
+def probe_counts(files, wd):
+    """sample counts per track of each file, taken from a default session (also validated)."""
+    cases = [dict(f, id="probe-%d" % i, prop="C15") for i, f in enumerate(files)]
+    cp, tp = os.path.join(wd, "probe-cases.ndjson"), os.path.join(wd, "probe-trace.ndjson")
+    write_ndjson(cp, cases)
+    mp4v(["read-run", cp, tp])
+    counts, cur = {}, None
+    for ev in read_ndjson(tp):
+        if ev["e"] == "reset":
+            cur = int(ev["id"].split("-")[1])
+            counts[cur] = {}
+        elif ev["e"] == "count" and ev["res"] == "ok":
+            counts[cur][ev["t"]] = ev["n"]
+    return counts, cases
+
+
+def resolve(call, counts):
+    n = counts.get(call["t"], 3)
+    k = {"0": 0, "1": 1, "n": n, "n+1": n + 1}[call["k"]]
+    return {"op": call["op"], "t": call["t"], "k": k}
+
+
+@check("C15")
+def c15(prop, tier, replay):
+    t0 = time.time()
+    rng = random.Random(seed())
+    wd = workdir(prop + "-" + tier)
+    known = load_known()
+    if replay:
+        c = json.load(open(replay))
+        spec, runner = ("Trace_Mux", "mux-run") if "calls" in c and "cfg" in c else ("Trace_Read", "read-run")
+        res = validate_sharded(spec, [c], wd, "replay", 1, runner=runner)
+        report_read(prop, tier, res, [c], [], t0, known, "model_checking", "replay", 2)
+        return
+    # (1) input files: spec-rendered (sample tables, fragments) and third-party canned files
+    stl, lk = gen_mc("MC_Lookup", "MC_Lookup_q", wd, tier, coverage=False)
+    stf, fr = gen_mc("MC_Frag", "MC_Frag_q", wd, tier, coverage=False)
+    pick_lk = [c for c in lk if c["place"] == "inter" and c["n"] == 3][:2]
+    pick_fr = [c for c in fr if c["ntracks"] == 2 and c["nfrag"] == 2][:2]
+    files = [{"file": c["file"], "expect_ok": True} for c in pick_lk]
+    for c in pick_fr:
+        d = {"file": c["file"], "expect_ok": True}
+        if c["delivery"] == "split":
+            d["init"] = c["init"]
+        files.append(d)
+    # table sets with many stsc runs (random chunk sizes), rendered by the library's writers
+    tp = os.path.join(wd, "many-runs.ndjson")
+    mp4v(["tables-gen", str(seed() + 17), "40", tp])
+    many = [c for c in read_ndjson(tp) if c["n"] >= 30][:2]
+    files += [{"file": c["file"], "expect_ok": True} for c in many]
+    files.append({"file": canned("minimal.mp4"), "expect_ok": True})
+    files.append({"file": canned("minimal_fragment.m4s"), "init": canned("minimal_init.mp4"), "expect_ok": True})
+    counts, probes = probe_counts(files, wd)
+    # (2) all schedules up to the bound (TLC), several per reader session, + long random schedules
+    sts, sch = gen_mc("MC_Reader", "MC_Reader_q" if tier == "quick" else "MC_Reader_t", wd, tier, coverage=False)
+    scheds = [c["calls"] for c in sch]
+    if tier == "thorough" and len(scheds) > 12000:
+        scheds = rng.sample(scheds, 12000)
+    group = 8
+    cases = list(probes)
+    for fi, f in enumerate(files):
+        order = list(range(len(scheds)))
+        rng.shuffle(order)
+        for g in range(0, len(order), group):
+            calls = [resolve(c, counts[fi]) for i in order[g:g + group] for c in scheds[i]]
+            cases.append(dict(f, id="sch-%d-%d" % (fi, g // group), prop="C15", calls=calls))
+        for r in range(6 if tier == "quick" else 60):
+            calls = []
+            for _ in range(200):
+                t = rng.choice([0, 1, 1, 1, 2, 2, 3, 9])
+                n = counts[fi].get(t, 3)
+                calls.append({"op": rng.choice(["read", "read", "offset", "count"]), "t": t,
+                              "k": rng.choice([0, 1, n, n + 1, n + 2, rng.randint(0, n + 1)])})
+            cases.append(dict(f, id="rnd-%d-%d" % (fi, r), prop="C15", calls=calls))
+    res = validate_sharded("Trace_Read", cases, wd, "sched", 6 if tier == "quick" else 16, runner="read-run")
+    # (3) determinism: muxing the same history twice, opening the same bytes twice (events `twice` of the mux suite)
+    rp = os.path.join(wd, "random-cases.ndjson")
+    nmux = 150 if tier == "quick" else 4000
+    mp4v(["mux-gen", str(seed()), str(nmux), rp])
+    mcases = read_ndjson(rp)
+    mres = validate_sharded("Trace_Mux", mcases, wd, "det", 6 if tier == "quick" else 16)
+    mres["fails"] = [f for f in mres["fails"] if f["prop"] == "C15"]
+    res["fails"] += mres["fails"]
+    for k in ("events", "runs", "states"):
+        res[k] += mres[k]
+    report_read(prop, tier, res, cases + mcases, [stl, stf, sts], t0, known, "model_checking",
+                "reader sessions: every call schedule up to the bound over (read|offset|count) x tracks {0,1,2[,9]} x ids {0,1,n,n+1}, "
+                "eight schedules per session, plus random 200-call schedules, on spec-rendered and canned files; every result validated "
+                "against the function of (file, arguments); muxing histories run twice / files opened twice for determinism; "
+                "non-trivial = a session with at least two calls or a muxing history with at least two samples",
+                sum(1 for c in cases if len(c.get("calls", [])) >= 2) + len(mcases), {})
